@@ -35,7 +35,36 @@ P = 'circus.process:Process.'
 
 
 def check(run, ctx):
-    run.each(ctx, [r1, r2, r3, r4, r5, r6, r7, r8])
+    run.each(ctx, [r1, r2, r3, r4, r5, r6, r7, r8, r9])
+
+
+def r9(run, ctx):
+    run.rule('R9', "the arbiter's _stopping flag is only raised on the way down")
+    # manage_watchers (zombie sweep, dead-entry sweep, respawn) returns at once while
+    # _stopping is set: raising it is final unless it is lowered again
+    acls = ctx.p.cls('circus.arbiter:Arbiter')
+    n = 0
+    for m in acls.methods.values():
+        if m.name == '__init__':
+            continue
+        cfg = ctx.cfg(m)
+        ups = ctx.direct_nodes(m, ev_setattr('_stopping', True))
+        downs = ctx.direct_nodes(m, ev_setattr('_stopping', False))
+        from sa.dataflow import reaching_defs
+        rdm = reaching_defs(ctx, m)
+        going_down = [x for x in ctx.live_nodes(m) if any(
+            astq.call_last(c) == 'add_callback' and c.args and
+            all('stop' in a.text() for a in rdm.expand(x, c.args[0])) for c in x.calls())]
+        for u in ups:
+            n += 1
+            r = cfg.reach(u, avoid=downs + going_down, labels_excluded=('exc', 'raise', 'reraise'))
+            run.check('R9', cfg.exit.id not in r, '%s raises _stopping only when the arbiter is '
+                      'shut down (or lowers it again)' % m.qualname, m, u.ast,
+                      '%s can return with _stopping left set although the arbiter keeps running: '
+                      'every later periodic check returns at once - dead workers stay listed, '
+                      'zombies are never collected, nothing is respawned' % m.qualname,
+                      construct='_stopping left set')
+    run.count('R9', n, 2, 'writes of Arbiter._stopping = True')
 
 
 def r8(run, ctx):
